@@ -20,6 +20,8 @@ class ReaderCfg(Cfg):
         super().__init__(program)
         self.fault = fault
         self.key_errors = key_errors
+        self.ctor_props = ctor_property_params(program, "InotifyEvent")
+        self.tabled_hits: list[str] = []
         self.exclusive = [{f"rec.{k}" for k in KIND_FLAGS}]
         self.implies = [(f"rec.{a}", f"rec.{b}") for a, b in inotify_event_implications(program)]
 
@@ -47,18 +49,19 @@ class ReaderCfg(Cfg):
         return None
 
     def canon_term(self, t, st):
-        def fn(n):
-            if (
-                isinstance(n, ast.Attribute)
-                and isinstance(n.value, ast.Call)
-                and isinstance(n.value.func, ast.Name)
-                and n.value.func.id == "InotifyEvent"
-                and n.attr.startswith("is_")
-            ):
-                return ast.Attribute(ast.Name("rec", ast.Load()), n.attr, ast.Load())
-            return None
+        return rewrite(t, self._canon_fn)
 
-        return rewrite(t, fn)
+    def _canon_fn(self, n):
+        if isinstance(n, ast.Attribute) and isinstance(n.value, ast.Call) and isinstance(n.value.func, ast.Name) and n.value.func.id == "InotifyEvent":
+            if n.attr.startswith("is_"):
+                return ast.Attribute(ast.Name("rec", ast.Load()), n.attr, ast.Load())
+            idx = self.ctor_props.get(n.attr)
+            if idx is not None and idx < len(n.value.args):
+                return n.value.args[idx]
+        return None
+
+    def canon_event_text(self, text: str) -> str:
+        return text
 
     def consistent(self, val):
         for grp in self.exclusive:
@@ -75,17 +78,79 @@ class ReaderCfg(Cfg):
             if f == "Inotify._raise_error":
                 return ["OSError"]
         if self.key_errors:
+            c = k = None
             if kind in ("subscript", "del"):
-                c = text.split("[")[0]
-                if c in MAPS:
-                    return ["KeyError"]
-            if kind == "call":
+                ev = st.evs[-1] if st.evs else None
+                if ev is not None and ev.kind == kind:
+                    c, k = ev.extra.get("container"), ev.extra.get("key")
+            elif kind == "call":
                 f = text.split("(")[0]
-                if f.endswith(".pop") and f[: -len(".pop")] in MAPS:
-                    nargs = len(getattr(node, "args", []))
-                    if nargs < 2:
-                        return ["KeyError"]
+                if f.endswith(".pop") and f[: -len(".pop")] in MAPS and len(getattr(node, "args", [])) < 2:
+                    ev = st.evs[-1]
+                    c, k = f[: -len(".pop")], (ev.extra.get("args") or [""])[0]
+            if c in MAPS and k is not None:
+                why = key_guard(st, c, k)
+                if why:
+                    return ()
+                if c == "self._path_for_wd" and k == "wd" and kind == "subscript":
+                    # tabled: the head lookup of the record loop (see C07): wd is stored by _add_watch before the kernel can
+                    # report it and removed only on IN_IGNORED, after which inotify(7) reports nothing for it
+                    self.tabled_hits.append(f"{c}[{k}]")
+                    return ()
+                return ["KeyError"]
         return ()
+
+
+def ctor_property_params(P: Program, clsname: str) -> dict[str, int]:
+    """property name -> index of the constructor parameter it returns (read-only property over self._x = param)."""
+    ci = P.cls(clsname)
+    init = ci.methods.get("__init__")
+    if init is None:
+        return {}
+    params = [a.arg for a in init.node.args.args][1:]
+    field_param = {}
+    for n in ast.walk(init.node):
+        if isinstance(n, ast.Assign) and len(n.targets) == 1 and isinstance(n.targets[0], ast.Attribute) and isinstance(n.value, ast.Name):
+            if isinstance(n.targets[0].value, ast.Name) and n.targets[0].value.id == "self" and n.value.id in params:
+                field_param[n.targets[0].attr] = params.index(n.value.id)
+    out = {}
+    for m, fi in ci.methods.items():
+        if any(isinstance(d, ast.Name) and d.id == "property" for d in fi.node.decorator_list):
+            body = [b for b in fi.node.body if not (isinstance(b, ast.Expr) and isinstance(b.value, ast.Constant))]
+            if len(body) == 1 and isinstance(body[0], ast.Return) and isinstance(body[0].value, ast.Attribute):
+                v = body[0].value
+                if isinstance(v.value, ast.Name) and v.value.id == "self" and v.attr in field_param:
+                    out[m] = field_param[v.attr]
+    return out
+
+
+def key_guard(st, c: str, k: str) -> str | None:
+    """Why key k is known to be present in map c at this point of the path (None if it is not)."""
+    if st.val.get(f"{k} in {c}") is True:
+        return "dominating membership test"
+    for a, t in st.val.items():
+        if t and a.startswith(f"{c}.get({k})") and ("==" in a or " is not None" in a) and not a.endswith("== None"):
+            return "dominating .get() comparison"
+    if k.startswith(f"$elem({c}.copy())") or k.startswith(f"$elem({c})") or k.startswith(f"$elem(list({c}") or k.startswith(f"$elem(tuple({c}"):
+        alive = True
+        for e in st.evs:
+            if (e.kind == "del" and e.extra.get("container") == c and e.extra.get("key") == k) or (e.kind == "call" and e.extra.get("func") == f"{c}.pop" and (e.extra.get("args") or [""])[0] == k):
+                alive = False
+        # the current event is itself the pop/del: it is the last one
+        if alive or (st.evs and st.evs[-1].extra.get("key", (st.evs[-1].extra.get("args") or [""])[0]) == k and sum(1 for e in st.evs if (e.kind == "del" and e.extra.get("container") == c and e.extra.get("key") == k) or (e.kind == "call" and e.extra.get("func") == f"{c}.pop" and (e.extra.get("args") or [""])[0] == k)) <= 1):
+            return "key taken from an iteration over (a copy of) the map"
+    present = None
+    for e in st.evs[:-1]:
+        if e.extra.get("container") == c and e.extra.get("key") == k:
+            if e.kind in ("setitem", "subscript"):
+                present = e.kind
+            elif e.kind == "del":
+                present = None
+        if e.kind == "call" and e.extra.get("func") == f"{c}.pop" and (e.extra.get("args") or [""])[0] == k:
+            present = None
+    if present:
+        return f"earlier successful {present} of the same key on this path"
+    return None
 
 
 def find_loops(paths: list[Path], pred) -> list:
